@@ -105,7 +105,8 @@ impl SymbolsExportsModule {
     }
     pub fn set_default_export(&mut self, export: Rc<SymbolExportDefault>) {
         if self.export_default.is_some() {
-            panic!("Default export already set");
+            // a module with two default exports is rejected by TypeScript; keep the first one instead of panicking
+            return;
         }
         self.export_default = Some(export);
     }
